@@ -172,6 +172,10 @@ def _stats_cases(tier):
                         cases.append({"kind": "stats", "size": list(size),
                                       "dtype": dt, "channels": nch,
                                       "target": target, "storage": st})
+    names = ("ds", "colin", "atlas_info", "of", "out/", "n", "info")
+    for i, c in enumerate(cases):
+        if names[i % len(names)] != "ds":
+            c["ds_name"] = names[i % len(names)]
     return cases
 
 
@@ -216,7 +220,8 @@ def _eval_stats_in(col, case, d):
     n = int(np.prod(shape))
     arr = (np.arange(n, dtype=np.int64) % 200 + 1).reshape(shape).astype(dt)
     nii = pipeline.write_nifti(os.path.join(d, "v.nii"), arr)
-    ds = os.path.join(d, "ds")
+    # the dataset directory's name is the user's choice
+    ds = os.path.join(d, case.get("ds_name", "ds").rstrip("/"))
     st = case["storage"]
     sharded = "--sharding" in st
     steps = [
@@ -234,7 +239,8 @@ def _eval_stats_in(col, case, d):
             col.ev(1, 0, "stats-pipeline-failed/%s/%s" % (
                 script, type(r.exc).__name__ if r.exc else r.status))
             return
-    r = sandbox.run_cli("scale_stats", [ds])
+    r = sandbox.run_cli("scale_stats",
+                        [os.path.join(d, case.get("ds_name", "ds"))])
     if not r.ok:
         col.ev(1, 1, "stats-command-failed")
         col.violation("C20/scale-stats/command-failed", case, "status 0",
